@@ -58,4 +58,14 @@ StructureOfOK(w, e) ==
     /\ Len(e.printed) <= 11
     /\ (e.wmax # -1) => \A c \in 1 .. Len(w) : w[c] <= w[e.wmax + 1]
 StructureOK(w, S, N) == StructureOfOK(w, Expected(w, S, N))
+\* the first line of the summary reports the maximum difference D = max_{i < j} |W_i - W_j| of the adjustment data W of the last result
+\* (multi_channel_max_difference.hpp); for a single channel there is no pair and D = 0
+AbsDiff(a, b) == IF a < b THEN b - a ELSE a - b
+MaxDiff(adj) ==
+    LET P == {<<i, j>> \in (1 .. Len(adj)) \X (1 .. Len(adj)) : i < j}
+    IN IF P = {} THEN 0 ELSE CHOOSE d \in {AbsDiff(adj[p[1]], adj[p[2]]) : p \in P} : \A q \in P : AbsDiff(adj[q[1]], adj[q[2]]) <= d
+\* ... which is the spread of the data
+MaxDiffIsSpread(adj) ==
+    Len(adj) >= 1 => \E i, j \in 1 .. Len(adj) : /\ \A k \in 1 .. Len(adj) : adj[j] <= adj[k] /\ adj[k] <= adj[i]
+                                                 /\ MaxDiff(adj) = adj[i] - adj[j]
 =============================================================================
